@@ -154,6 +154,7 @@ type Specs struct {
 	FieldInvs    map[string]*FieldInv
 	Relies       []string
 	LitPreds     []LitPred
+	GlobalInvs   []*Pred
 	Axioms       []*Axiom
 	Lemmas       []*Lemma
 	GhostFields  map[string]*GhostField // "bytes.Buffer.content"
@@ -346,7 +347,7 @@ func splitNames(s string) []string {
 var keywords = map[string]bool{"func": true, "serves": true, "requires": true, "ensures": true, "modifies": true,
 	"ghost": true, "loop": true, "panics_if": true, "trusted": true, "pure": true, "spec": true, "axiom": true,
 	"ghostfield": true, "opt": true, "assert_at": true, "rely": true, "lemma": true, "const": true, "struct": true,
-	"fresh": true, "nobody": true, "end": true, "vars": true, "pred": true, "fieldinv": true, "assume": true, "litpred": true}
+	"fresh": true, "nobody": true, "end": true, "vars": true, "pred": true, "fieldinv": true, "assume": true, "litpred": true, "globalinv": true}
 
 // parseSpecFile reads all //@ directives of a file.
 func (sp *Specs) parseFile(path, pkgPath string) error {
@@ -587,6 +588,19 @@ func (sp *Specs) parseFile(path, pkgPath string) error {
 				return errf("duplicate spec fn %s", sf.Name)
 			}
 			sp.SpecFns[sf.Name] = sf
+			cur = nil
+		case "globalinv":
+			// globalinv NAME := expr  -- invariant over package-level variables that are written only
+			// by the package initialiser; assumed at entry and after every havoc
+			i := findTop(rest, ":=")
+			if i < 0 {
+				return errf("globalinv NAME := expr")
+			}
+			e, err := parseExpr(strings.TrimSpace(rest[i+2:]))
+			if err != nil {
+				return errf("globalinv: %v", err)
+			}
+			sp.GlobalInvs = append(sp.GlobalInvs, &Pred{Name: strings.TrimSpace(rest[:i]), Body: e, Src: rest, File: path, Pkg: pkgPath})
 			cur = nil
 		case "litpred":
 			// litpred PRED regexp : PRED(lit) holds for every string literal whose text matches
